@@ -298,6 +298,69 @@ theorem canonPageBlock_idem (lv : Nat) (b : SPageBlock) :
     pagePlain_pageMargins, pageMargins_idem, List.append_nil, List.nil_append]
   rw [h]
 
+/-! ## names, `@variables` -/
+
+theorem canonName_idem (tail : Gap) (h : comments tail = []) (name : SName) :
+    canonName tail (canonName tail name) = canonName tail name := by
+  cases name with
+  | none => rfl
+  | some p =>
+    obtain ⟨q, n, g⟩ := p
+    cases n with
+    | nil => simp [canonName]
+    | cons c t => simp [canonName, gTrail_idem _ _ _ h]
+
+theorem nameWritten_canon (tail : Gap) (name : SName) : nameWritten (canonName tail name) = nameWritten name := by
+  cases name with
+  | none => rfl
+  | some p =>
+    obtain ⟨q, n, g⟩ := p
+    cases n <;> simp [canonName, nameWritten]
+
+theorem emptyNameGap_canon (tail : Gap) (name : SName) : emptyNameGap (canonName tail name) = [] := by
+  cases name with
+  | none => rfl
+  | some p =>
+    obtain ⟨q, n, g⟩ := p
+    cases n <;> simp [canonName, emptyNameGap]
+
+theorem canonVarDecl_canonVarDecl (c c' : Option Ws) (d : SVarDecl) :
+    canonVarDecl c' (canonVarDecl c d) = canonVarDecl c' d := by
+  simp [canonVarDecl, gTrail_idem]
+
+/-- the declarations a laid-out `@variables` block is read back as -/
+def reV (r : List (SVarDecl × Gap) × Option SVarDecl) : List SVarDecl := r.1.map (·.1) ++ r.2.toList
+
+theorem reV_layVarItems_cons (lv : Nat) (d : SVarDecl) (rest : List SVarDecl) :
+    ∃ x xs, reV (layVarItems lv (d :: rest)) = x :: xs := by
+  cases rest with
+  | nil => exact ⟨_, [], rfl⟩
+  | cons e rest' => exact ⟨_, _, rfl⟩
+
+theorem layVarItems_idem (lv : Nat) : (l : List SVarDecl) → layVarItems lv (reV (layVarItems lv l)) = layVarItems lv l
+  | [] => rfl
+  | [d] => by simp [layVarItems, reV, canonVarDecl_canonVarDecl]
+  | d :: e :: rest => by
+    have ih := layVarItems_idem lv (e :: rest)
+    obtain ⟨x, xs, hx⟩ := reV_layVarItems_cons lv e rest
+    have e1 : reV (layVarItems lv (d :: e :: rest)) = canonVarDecl none d :: reV (layVarItems lv (e :: rest)) := rfl
+    rw [e1, hx]
+    simp only [layVarItems]
+    rw [← hx, ih, canonVarDecl_canonVarDecl]
+
+theorem canonVarBlock_idem (lv : Nat) (b : SVarBlock) : canonVarBlock lv (canonVarBlock lv b) = canonVarBlock lv b := by
+  have e : varDecls (canonVarBlock lv b) = reV (layVarItems lv (varDecls b)) := rfl
+  have h := layVarItems_idem lv (varDecls b)
+  rw [← e] at h
+  simp only [canonVarBlock] at h ⊢
+  rw [h]
+
+theorem canonVar_idem (r : SVar) : canonVar (canonVar r) = canonVar r := by
+  cases r with
+  | comment b => rfl
+  | unknown t => rfl
+  | variables kw g0 blk => simp [canonVar, canonVarBlock_idem, gTrail_idem]
+
 theorem canonPageSel_idem (s : SPageSel) : canonPageSel (canonPageSel s) = canonPageSel s := rfl
 theorem selEmpty_canon (s : SPageSel) : selEmpty (canonPageSel s) = selEmpty s := rfl
 
@@ -317,9 +380,9 @@ theorem canonRule_idem (lv : Nat) : (r : SRule) → canonRule lv (canonRule lv r
   | .comment b => by simp [canonRule]
   | .style sel blk => by simp [canonRule, canonSel_idem, canonBlock_idem]
   | .unknown t => by simp [canonRule]
-  | .media kw g1 mq g2 lead rules => by
+  | .media kw g1 mq g2 name lead rules => by
     simp only [canonRule, gLead_idem]
-    rw [canonRules_idem (lv + 1) true rules, gTrail_idem _ _ _ (by rfl)]
+    rw [canonRules_idem (lv + 1) true rules, gTrail_idem _ _ _ (by rfl), canonName_idem _ (by rfl)]
   | .fontface kw g1 blk => by
     simp only [canonRule, canonBlock_idem]
     rw [gTrail_idem _ _ _ (by rfl)]
@@ -339,10 +402,16 @@ theorem canonImp_idem (r : SImp) : canonImp (canonImp r) = canonImp r := by
   cases r with
   | comment b => rfl
   | unknown t => rfl
-  | import_ kw g1 href g2 mq =>
+  | import_ kw g1 href g2 mq name =>
     cases mq with
-    | none => simp [canonImp, gLead_idem, canonHref_idem, gTrail_idem]
-    | some p => simp [canonImp, gLead_idem, canonHref_idem, gTrail_idem, comments]
+    | none =>
+      simp only [canonImp, gLead_idem, canonHref_idem, Option.isSome_none, Bool.false_or, Option.map_none,
+        nameWritten_canon, emptyNameGap_canon, canonName_idem [] rfl, List.append_nil, Bool.false_eq_true, ↓reduceIte]
+      rw [gTrail_idem _ _ _ (comments_if_sp _)]
+    | some p =>
+      simp only [canonImp, gLead_idem, canonHref_idem, Option.isSome_some, Bool.true_or, Option.map_some,
+        nameWritten_canon, emptyNameGap_canon, canonName_idem [] rfl, List.append_nil, ↓reduceIte]
+      rw [gTrail_idem _ _ _ (by rfl), gTrail_idem _ _ _ (comments_if_sp _)]
 
 theorem canonNs_idem (r : SNs) : canonNs (canonNs r) = canonNs r := by
   cases r with
@@ -368,7 +437,7 @@ theorem rulesEmpty_canon (lv : Nat) (inner : Bool) (rs : SRules) : rulesEmpty (c
 
 theorem canonV_idem (s : SSheet) : canonV (canonV s) = canonV s := by
   simp only [canonV, layStmts_isEmpty, rulesEmpty_canon, layStmts_idem canonImp canonImp_idem,
-    layStmts_idem canonNs canonNs_idem, canonRules_idem]
+    layStmts_idem canonNs canonNs_idem, layStmts_idem canonVar canonVar_idem, canonRules_idem]
   cases s.charset <;> simp
 
 end CssVerif.SheetCanon
